@@ -350,6 +350,12 @@ def run(ctx):
                     R.library(f'{src}2{dst}', s11, OMIT, 'text-11-digits')
                     R.library(f'{src}2{dst}', '1.5', OMIT, 'text-fraction')
                     R.library(f'{src}2{dst}', 1.5, OMIT, 'float-fraction')
+                    for nearly in (101.0000000001, 10.99999999999, 1e-10,
+                                   7.000000001, 1 + 2 ** -40):
+                        R.library(f'{src}2{dst}', nearly, OMIT,
+                                  'float-nearly-whole')
+                    R.formula(f'{src}2{dst}', 101.0000000001, OMIT,
+                              'float-nearly-whole')
                     R.formula(f'{src}2{dst}', 1.5, OMIT, 'float-fraction')
         # booleans -> #VALUE!
         for fn in FUNCS:
